@@ -1445,3 +1445,135 @@ def c15_r16(ctx):
         ctx.check(good, key(gm, f"method returns={returns}"), f"[method with return annotation={returns}] steps {[[dotted(strip_pre(e).func) for e in o.effects] for o in outs][:1]}; expected: imports recorded, arguments rewritten, "
                   f"{'return annotation rewritten, ' if returns else ''}import moved into the method, module imports updated, module handed on", gm.loc(),
                   okmsg=f"generate_client_module: per method (returns={returns}) all steps in order")
+
+
+@rule("C14.R15", "leaf / union builder classes: `<Type>GraphQLField(GraphQLField)` with alias(); unions are `<Type>Union` and also get on(); each is exported once", min_instances=4, also=["C04"])
+def c14_r15(ctx):
+    repo = ctx.repo
+    fc = repo.func(CFT_ + "_generate_field_class")
+    eff = lambda c: isinstance(c.func, ast.Attribute) and c.func.attr == "append"
+    for union in (True, False):
+        for known in (True, False):
+            def atom(e, union=union, known=known):
+                t = str(norm(strip_pre(e)))
+                if t == "isinstance(graphql_type, GraphQLUnionType)":
+                    return union
+                if t.endswith(" not in self._public_names"):
+                    return not known
+                if t.endswith(" in self._public_names"):
+                    return known
+                if t == "class_body":
+                    return True
+                return None
+            it = Interp(fc, atom, is_effect=eff)
+            outs = [o for o in it.run() if o.kind == "return"]
+            cname = "f'{graphql_type.name}Union'" if union else "f'{graphql_type.name}GraphQLField'"
+            good = bool(outs)
+            for o in outs:
+                v = strip_pre(it._simp(subst(o.value, o.env, deep=True), o.env))
+                body_name = None
+                b = kw(v, "body") if isinstance(v, ast.Call) else None
+                effs = [norm(strip_pre(e)) for e in o.effects]
+                body_appends = [e for e in effs if e.startswith("class_body.append(")]
+                want_body = ([f"class_body.append(self._generate_on_method(class_name={cname}))"] if union else []) + [f"class_body.append(self._generate_alias_method(class_name={cname}))"]
+                exported = [e for e in effs if e.startswith("self._public_names.append(")]
+                good = good and isinstance(v, ast.Call) and dotted(v.func) == "generate_class_def" and norm(kw(v, "name") or ast.Constant(0)) == cname and \
+                    norm(kw(v, "base_names") or ast.Constant(0)) in ("['GraphQLField']", "[GRAPHQL_BASE_FIELD_CLASS]") and body_appends == want_body and \
+                    exported == ([] if known else [f"self._public_names.append({cname})"]) and b is not None and "class_body" in norm(b)
+            ctx.check(good, key(fc, f"union={union} already exported={known}"), f"[union={union}, name already exported={known}] the typing class must be `class {cname}(GraphQLField)` with "
+                      f"{'on() and ' if union else ''}alias(), exported {'no second time' if known else 'once'}: {[o.text()[:160] for o in outs][:1]}", fc.loc(),
+                      okmsg=f"typing class union={union} exported-before={known}: {cname}, {'on + ' if union else ''}alias")
+    g = repo.func(CFT_ + "generate")
+    outs = [o for o in Interp(g, lambda e: None).run() if o.kind == "return"]
+    ctx.check(bool(outs) and all("self.graphql_field_import" in norm(strip_pre(o.value)) and "self._class_defs" in norm(strip_pre(o.value)) and str(norm(strip_pre(o.value))).startswith("generate_module(body=")
+                                 and str(norm(strip_pre(o.value))).index("self.graphql_field_import") < str(norm(strip_pre(o.value))).index("self._class_defs") for o in outs), key(g, "module"),
+              f"custom_typing_fields.py must be the GraphQLField import followed by the classes: {[o.text()[:120] for o in outs]}", g.loc(), okmsg="custom_typing_fields module = GraphQLField import + classes")
+    init = repo.cls(CFT_[:-1]).methods["__init__"]
+    cds = [st.value for st in ast.walk(init.node) if (isinstance(st, ast.Assign) and norm(st.targets[0]) == "self._class_defs") or (isinstance(st, ast.AnnAssign) and st.value is not None and norm(st.target) == "self._class_defs")]
+    cs = comp_struct(strip_pre(cds[0])) if cds else None
+    ctx.check(cs is not None and cs[0] in ("self._generate_field_class($0)", "self._generate_field_class(graphql_type=$0)") and [(str(a), list(map(str, b))) for a, b in cs[1]] == [("self._filter_types()", [])],
+              key(init, "all types"), f"typing classes are {cs}: one per selected type", init.loc(), okmsg="one typing class per selected object / interface / union type")
+
+
+@rule("C15.R17", "ClientForwardRefs import surgery: moved names leave their from-imports, emptied from-imports disappear, everything else stays; the TYPE_CHECKING block imports every moved type from its module",
+      min_instances=8)
+def c15_r17(ctx):
+    repo = ctx.repo
+    ue = repo.func(CFR_ + "_update_existing_imports")
+    eff = lambda c: is_name(c.func, "<setattr>") or (isinstance(c.func, ast.Attribute) and c.func.attr == "append")
+    nd = "<elem>(enumerate(module.body))[1]"
+
+    def mk(kind="ImportFrom", moved=False, nonempty=True):
+        def atom(e):
+            t = str(norm(strip_pre(e)))
+            if t.endswith(", ast.Import)"):
+                return (kind == "Import") if t.startswith("isinstance(") else (kind != "Import")
+            if t.endswith(", ast.ImportFrom)"):
+                return (kind == "ImportFrom") if t.startswith("isinstance(") else (kind != "ImportFrom")
+            if t.endswith(".name not in return_types_not_used_as_input"):
+                return not moved
+            if t.endswith(".name in return_types_not_used_as_input"):
+                return moved
+            if t.startswith("len(") and t.endswith(" > 0"):
+                return nonempty
+            if t in ("reduced_names",):
+                return nonempty
+            return None
+        return atom
+
+    def per_node(**kwargs):
+        res = []
+        for o in Interp(ue, mk(**kwargs), is_effect=eff).run():
+            if o.kind != "return" or not any("loop body once" in t for t in o.trace):
+                continue
+            res.append(([norm(strip_pre(e)) for e in o.effects], o))
+        return res
+    app = lambda e: any(x.startswith("non_empty_imports.append(") for x in e)
+    setn = lambda e: any(x.startswith("<setattr>(") and ", 'names', " in x for x in e)
+    rows = [("plain `import x`", dict(kind="Import"), lambda e: app(e) and not setn(e)),
+            ("statement that is no import", dict(kind="Other"), lambda e: not app(e) and not setn(e)),
+            ("from-import that keeps a name", dict(moved=False, nonempty=True), lambda e: setn(e) and app(e)),
+            ("from-import emptied by the move", dict(moved=True, nonempty=False), lambda e: setn(e) and not app(e))]
+    for label, kwargs, pred in rows:
+        got = per_node(**kwargs)
+        got = [g for g in got if label != "from-import that keeps a name" or sum(1 for t in g[1].trace if "loop body once" in t) >= 2] or got
+        ctx.check(bool(got) and all(pred(e) for e, _ in got), key(ue, label), f"[{label}] {[e for e, _ in got][:1]}: an emptied `from x import` left in the module breaks formatting; a dropped plain import or a kept moved "
+                  "name defeats the plugin", ue.loc(), okmsg=f"_update_existing_imports: {label} handled")
+    # which names stay in a from-import: exactly those not moved
+    keep = False
+    for o in Interp(ue, mk(moved=False), is_effect=eff).run():
+        for e in o.effects:
+            t = norm(strip_pre(e))
+            if ", 'names'," in t and ".name not in return_types_not_used_as_input" in t:
+                keep = True
+    comps = [comp_struct(c) for c in ast.walk(ue.node) if isinstance(c, ast.ListComp)]
+    keep = keep or any(c is not None and c[0] == "$0" and len(c[1]) == 1 and str(c[1][0][0]).endswith(".names") and [str(x) for x in c[1][0][1]] == ["$0.name not in return_types_not_used_as_input"] for c in comps)
+    ctx.check(keep, key(ue, "filter"), "the names kept in a from-import must be exactly those that are not moved", ue.loc(), okmsg="kept names = names not moved")
+    outs = [o for o in Interp(ue, mk(), is_effect=eff).run() if o.kind == "return"]
+    good = bool(outs) and all(is_name(strip_pre(o.value), "non_empty_imports") for o in outs) and \
+        all(any(norm(strip_pre(e)).startswith("<setattr>(module, 'body', non_empty_imports + module.body[") and "+ 1:]" in norm(strip_pre(e)) for e in o.effects) for o in outs)
+    ctx.check(good, key(ue, "rebuilt body"), f"the module body must become the kept imports followed by everything after the last import, and the kept imports be returned: {[o.text()[:140] for o in outs][:1]}", ue.loc(),
+              okmsg="module body = kept imports + rest after the last import; kept imports returned")
+    af = repo.func(CFR_ + "_add_forward_ref_imports")
+    effa = lambda c: is_name(c.func, "<setitem>") or (isinstance(c.func, ast.Attribute) and c.func.attr in ("append", "insert"))
+    for first in (True, False):
+        def atom(e, first=first):
+            t = str(norm(strip_pre(e)))
+            if t.endswith(" not in type_checking_imports"):
+                return first
+            if t.endswith(" in type_checking_imports"):
+                return not first
+            return None
+        outs = [o for o in Interp(af, atom, is_effect=effa).run() if any("loop body once" in t for t in o.trace)]
+        good = bool(outs)
+        cls = "<elem>(self.input_and_return_types)"
+        for o in outs:
+            effs = [norm(strip_pre(e)) for e in o.effects]
+            created = any(e_.startswith(f"<setitem>(type_checking_imports, self.imported_classes[{cls}], ast.ImportFrom(module=self.imported_classes[{cls}], names=[], level=0))") for e_ in effs)
+            added = any(e_ == f"type_checking_imports[self.imported_classes[{cls}]].names.append(ast.alias({cls}))" or e_ == f"type_checking_imports[self.imported_classes[{cls}]].names.append(ast.alias(name={cls}))" for e_ in effs)
+            ins = [e_ for e_ in effs if e_.startswith("module.body.insert(len(non_empty_imports), ")]
+            good = good and created == first and added and len(ins) == 2 and "ast.If(test=ast.Name(id='TYPE_CHECKING')" in ins[0].replace("TYPE_CHECKING_FLAG", "'TYPE_CHECKING'") and "list(type_checking_imports.values())" in ins[0] \
+                and "ast.ImportFrom(module='typing'" in ins[1].replace("TYPE_CHECKING_MODULE", "'typing'") and "TYPE_CHECKING" in ins[1]
+        ctx.check(good, key(af, f"first of its module={first}"), f"[type that is {'the first' if first else 'a further one'} of its module] every moved type must be listed under `if TYPE_CHECKING:` in a `from <its module> import` "
+                  f"(created once per module), the block inserted after the kept imports and `from typing import TYPE_CHECKING` in front of it: {[[norm(strip_pre(e))[:100] for e in o.effects] for o in outs][:1]}", af.loc(),
+                  okmsg=f"_add_forward_ref_imports: {'new' if first else 'existing'} module entry, alias added, block + typing import inserted")
